@@ -34,7 +34,7 @@ N_INST_THOROUGH = 40
 
 def opts() -> mmgen.Opts:
     return mmgen.Opts(max_classes=5, max_props=3, max_cps=3, invariants="schema", docs="none", p_diamond=0.4,
-                      class_weight=2, float_props=False)
+                      class_weight=2, float_props=False, compatible_patterns=0.4)
 
 
 @st.composite
@@ -215,19 +215,48 @@ def evaluate(case: Dict[str, Any], base: Any, ctx: Any = None) -> List[Tuple[str
 
 
 def best_leaf(errs: Any) -> Any:
-    """The most informative leaf error: skip the modelType mismatches of the non-matching oneOf branches."""
+    """
+    The most informative leaf error. Inside ``oneOf``/``anyOf`` only the branches whose modelType matches are
+    followed (a branch that fails on ``modelType`` const/enum is a non-matching alternative, its other errors
+    say nothing about the document).
+    """
     leaves = []  # type: List[Any]
+
+    def is_model_type_mismatch(e: Any) -> bool:
+        return list(e.absolute_path)[-1:] == ["modelType"] and e.validator in ("const", "enum")
+
+    def branch_mismatches(group: List[Any]) -> bool:
+        found = [False]
+
+        def look(e: Any) -> None:
+            if is_model_type_mismatch(e):
+                found[0] = True
+            for c in e.context or []:
+                look(c)
+
+        for e in group:
+            look(e)
+        return found[0]
 
     def walk(e: Any) -> None:
         if e.context:
-            for c in e.context:
-                walk(c)
+            if e.validator in ("oneOf", "anyOf"):
+                groups = {}  # type: Dict[Any, List[Any]]
+                for c in e.context:
+                    groups.setdefault(list(c.relative_schema_path)[0] if c.relative_schema_path else None, []).append(c)
+                matching = [g for g in groups.values() if not branch_mismatches(g)]
+                for g in (matching or list(groups.values())):
+                    for c in g:
+                        walk(c)
+            else:
+                for c in e.context:
+                    walk(c)
         else:
             leaves.append(e)
 
     for e in errs:
         walk(e)
-    informative = [e for e in leaves if not (list(e.absolute_path)[-1:] == ["modelType"] and e.validator in ("const", "enum"))]
+    informative = [e for e in leaves if not is_model_type_mismatch(e)]
     pool = informative or leaves
     return sorted(pool, key=lambda e: (-len(list(e.absolute_path)), str(e.validator)))[0]
 
